@@ -12,6 +12,28 @@ CHECKS = {
 
 NOT_YET = {}
 
+def E(tech, text, note, ref):
+    return (tech, text, note, ref)
+
+CHECKS.update({
+ "C01": E("runtime oracle: every vector returned by the four inverse entry points is pushed through an independent link-chain model and compared with the requested pose; hostile inputs under catch_unwind",
+          "Exploration: 1.5e5 (quick) / 6e6 (thorough) robot x pose x previous cases, four entry points each, every returned element checked (finite, normalised, reproduces pose within 1e-6 m / 1e-6 rad; position + tool axis for 5-DOF). Holds only for the generated inputs.",
+          "Trusted base: refmodel chain; slack 1e-9+1e-12*reach. Non-finite 'previous' vectors are outside the quantifier and are not generated.",
+          "DESIGN.md section 5, C01"),
+ "C02": E("runtime oracle: inverse(FK_ref(q)) must contain q, the wrist-flipped twin of every answer, no duplicates, and be stable under re-solving; domain decided by reference singularity measures",
+          "Exploration: 1.5e5 / 8e6 robot x q cases away from singularities (margin 1e-3), all branches examined; near-singular cases are reported inconclusive.",
+          "Trusted base: refmodel chain and singularity measures; margins 1e-3 (domain) / 1e-2 (closure sub-checks).",
+          "DESIGN.md section 5, C02"),
+ "C07": E("exhaustive 5-degree lattice with exact integer oracle + random reals with metamorphic turn shifts, against Constraints::compliant/filter",
+          "Exploration; the lattice part (24.1e6 triples in [-720,720]^3) is enumerated completely on every run (exhaustive_subspace), random reals 2e5 / 1e7 six-joint cases with turn-invariance, centre and filter checks.",
+          "Trusted base: integer arithmetic arc oracle and refmodel::arc_contains. from>to with from==to (mod 2pi) is skipped as degenerate.",
+          "DESIGN.md section 5, C07"),
+ "C18": E("runtime oracle: every draw of Constraints::random_angles judged by the reference arc oracle, many draws per constraint set from 16 threads",
+          "Exploration: 4e3 / 2e5 constraint sets x 500 draws x 6 joints, all wrap-around classes (both positive / both negative / straddling / to==0 / from-to>2pi).",
+          "Trusted base: refmodel::arc_contains; thread_rng cannot be seeded: coverage comes from repetition.",
+          "DESIGN.md section 5, C18"),
+})
+
 def main():
     props = [json.loads(l) for l in open('/verif/properties.jsonl')]
     hooks_commits = subprocess.run(['git','-C','/repo','log','--format=%H %s'],capture_output=True,text=True).stdout.splitlines()
